@@ -642,7 +642,45 @@ def rule_h(ctx, out):
         raise AnalysisError(f"only {n} look-ups evaluated")
 
 
+def rule_i(ctx, out):
+    """Compile-time evaluation of the unary operations is EVM arithmetic whatever Python type the constant arrives in.  Constants
+    reach update_unary_func as decimal strings (from PUSH and from the binary folder) *and* as ints (the unary folder stores its own
+    results as ints, so ISZERO(NOT(x)) and ISZERO(ISZERO(x)) fold an int).  update_unary_func is interpreted for NOT and ISZERO on
+    0, 1, 2, 2^255, 2^256-1 given both ways; the value it records must be NOT / ISZERO of the word."""
+    from ..core.interp import ModuleInterp
+    f = ctx.func(f"{GO}.update_unary_func")
+    mi = ModuleInterp(ctx, max_steps=50000)
+    env = mi.module_env(GO)
+    n = 0
+    for fn_name, ref in (("not", lambda v: (~v) % 2 ** 256), ("iszero", lambda v: 1 if v == 0 else 0)):
+        for v in (0, 1, 2, 2 ** 255, 2 ** 256 - 1):
+            for as_type, given in (("decimal string", str(v)), ("int", v)):
+                env.update(s_dict={}, u_dict={}, gas_saved_op=0, rule_applied=False, rule="", context_info={}, size_flag=False, debug=False, rules_applied=[])
+                try:
+                    mi.call(f, fn_name, "s(9)", given, True)
+                except Raised as e:
+                    # an int constant has no .find: the folder may legitimately only accept what is_integer accepts; a raise on an int is reported
+                    out.bad(f"unary-fold:{fn_name}:raises:{as_type.replace(' ', '-')}", f"update_unary_func raises {e.what} folding {fn_name.upper()} of the constant {v} given as {as_type}", where(f))
+                    n += 1
+                    continue
+                except Unsupported as e:
+                    raise AnalysisError(f"update_unary_func cannot be evaluated abstractly: {e}")
+                n += 1
+                got = env["s_dict"].get("s(9)")
+                folded = isinstance(got, (int, str)) and not isinstance(got, bool) and str(got).lstrip("-").isdigit()
+                if not folded:
+                    out.ok({"operation": fn_name, "constant": v, "given_as": as_type, "folded": False})
+                elif int(got) == ref(v):
+                    out.ok({"operation": fn_name, "constant": v, "given_as": as_type, "value": int(got)})
+                else:
+                    out.bad(f"unary-fold:{fn_name}:wrong-value:{as_type.replace(' ', '-')}", f"update_unary_func folds {fn_name.upper()}({v}), the constant given as {as_type}, to {got}; "
+                            f"the EVM value is {ref(v)}", where(f), {"constant": v, "given_as": as_type, "folded_to": got})
+    if n < 20:
+        raise AnalysisError(f"only {n} unary folds evaluated")
+
+
 RULES = [
+    ("C03.i", "unary folds are EVM arithmetic for string and int constants alike", 20, rule_i),
     ("C03.h", "sub-expressions are shared only when every operand agrees", 150, rule_h),
     ("C03.g", "type-1 rule application preserves the denotation", 500, rule_g),
     ("C03.f", "context rules are identities on the pattern family", 25, rule_f),
